@@ -407,13 +407,16 @@ impl Prop for C10 {
     fn run_shard(&self, ctx: &mut Ctx<'_>) {
         let n = ctx.budget(30_000, 600_000);
         let release = ctx.flavour == "rel";
+        let allocator_ok = crate::retention::installed();
+        if !allocator_ok && ctx.shard == 0 {
+            ctx.inconclusive("retention monitor: the counting allocator is not installed in this binary".to_string());
+        }
         for i in 0..n {
             if i % 4 == 0 && ctx.should_stop() {
                 break;
             }
             if i % 16 == 9 {
-                if !crate::retention::installed() {
-                    ctx.inconclusive("retention monitor: the counting allocator is not installed in this binary".to_string());
+                if !allocator_ok {
                     continue;
                 }
                 let nsel = ctx.rng.below(4);
